@@ -977,6 +977,31 @@ pub fn c17_case(fam: &str, idx: usize, seed: u64) -> Option<Case> {
             let desc = format!("{} size={} scenario={} index={}", k.describe(), size, ["reverse link dark from #c", "forward link dark from #c", "segment c and all its retransmissions lost", "segment c lost once, segment c+1 lost for good", "one byte of segment c corrupted (no CRC)", "every Finished lost"][kind], c);
             Some(Case::from(sc, &k, desc, false))
         }
+        "prompt" => {
+            // a Prompt issued early in a data phase that lasts longer than the ACK timeout, then a peer that is never
+            // heard: the EOF must still get its full number of transmissions, one ACK timeout apart
+            let mut rng = Rng::derive(seed, 1703, idx as u64);
+            let mut k = Knobs::base();
+            k.seg = 32;
+            k.nak = nak_procs()[rng.usize(4)];
+            let t = *rng.pick(&[(10i64, 1i64, 2i64, 2u32), (10, 1, 5, 3), (20, 2, 2, 2), (30, 3, 4, 3)]);
+            k.ti = t.0;
+            k.ta = t.1;
+            k.tn = t.2;
+            k.limit = t.3;
+            // 1 PDU per millisecond: the data phase lasts 1.3 .. 2.6 ACK timeouts
+            let nseg = (t.1 as usize * 1000) * (13 + rng.usize(14)) / 10;
+            let size = nseg * 32 - rng.usize(32);
+            let cont = content(&mut rng, size, 3, 32, 0xC17);
+            let mut sc = two_party(&case, rng.next_u64(), &k, cont);
+            let what = if rng.bool() { PrimKind::PromptNak } else { PrimKind::PromptKeepAlive };
+            let at = rng.usize(20);
+            sc.scripts.push(Script { trig: Trigger::AfterEmit(0, at), delay_ms: 0, act: Act::Prim(0, what, 0) });
+            sc.rules.push(Rule { from: 1, to: 0, m: Matcher::FromIdx(0), a: Action::Drop });
+            sc.paced = true;
+            let desc = format!("{} size={} ({} segments) {:?} after emission #{}, reverse link dark", k.describe(), size, nseg, what, at);
+            Some(Case::from(sc, &k, desc, false))
+        }
         "mixed" => {
             // a different handler for every condition: the action taken must be the one configured for the
             // condition that was actually declared, also for the second and third fault of a transaction
@@ -1353,13 +1378,16 @@ pub fn run_c17b(rep_out: &mut Report, tier: &str, seed: u64, replay: Option<&str
     let nm = if tier == "thorough" { 600_000 } else { 1_500 };
     rep_out.merge(run_cases(nm, "c17b-mixed", move |i| c17_case("mixed", i, seed), judge_c17b));
     rep_out.add("cases:mixed", nm as u64);
+    let np = if tier == "thorough" { 3_000 } else { 60 };
+    rep_out.merge(run_cases(np, "c17b-prompt", move |i| c17_case("prompt", i, seed), judge_c17b));
+    rep_out.add("cases:prompt", np as u64);
 }
 
 pub fn meta_c17b() -> Meta {
     Meta {
         property: "C17",
         level: "exploration",
-        rule: "protocol level: 4-segment file, timer grid (Ti,Ta,Tn,L) in {(10,3,4,3),(4,1,2,2),(20,5,2,5),(6,2,9,1),(3,1,5,3),(1,2,2,2),(2,3,1,2)} x handler for every timer/checksum condition in {unset, Cancel, Ignore, Suspend, Abandon} x 4 NAK procedures x scenarios {reverse link dark from each of its first 4 PDUs, forward link dark from each of its first 7 PDUs, each data segment lost together with all its retransmissions, one segment recovering while its neighbour never does (progress resets the count), a corrupted byte without CRC, every Finished lost} plus unacknowledged+closure variants (complete in thorough, every 3rd by seed in quick); mixed = seeded scenarios of the same kinds with a different handler per condition (NAK limit often ignored, so that a second, different fault follows in the same transaction). Oracle on virtual timestamps; a receiver inactivity limit that was reached must also have been declared under its own condition. distinct_nontrivial = distinct (config, event-order) signatures among runs in which at least one limit fault was timed.".into(),
+        rule: "protocol level: 4-segment file, timer grid (Ti,Ta,Tn,L) in {(10,3,4,3),(4,1,2,2),(20,5,2,5),(6,2,9,1),(3,1,5,3),(1,2,2,2),(2,3,1,2)} x handler for every timer/checksum condition in {unset, Cancel, Ignore, Suspend, Abandon} x 4 NAK procedures x scenarios {reverse link dark from each of its first 4 PDUs, forward link dark from each of its first 7 PDUs, each data segment lost together with all its retransmissions, one segment recovering while its neighbour never does (progress resets the count), a corrupted byte without CRC, every Finished lost} plus unacknowledged+closure variants (complete in thorough, every 3rd by seed in quick); mixed = seeded scenarios of the same kinds with a different handler per condition (NAK limit often ignored, so that a second, different fault follows in the same transaction); prompt = a Prompt issued early in a data phase of 1.3-2.6 ACK timeouts (thousands of segments), then a peer that is never heard. Oracle on virtual timestamps; a receiver inactivity limit that was reached must also have been declared under its own condition. distinct_nontrivial = distinct (config, event-order) signatures among runs in which at least one limit fault was timed.".into(),
         exhaustive: false,
         assumptions: vec!["never-earlier is checked with 10 ms slack for the 1 ms/PDU pacing of the simulated link; never-later with an additional 50 ms per period".into(), "with an Ignore handler the implementation re-declares the same fault at every further expiry; only the first declaration of each condition is judged".into()],
         require: vec![("c17_timing_judged:sender:EOF".into(), 30), ("c17_timing_judged:receiver:Finished".into(), 30), ("c17_timing_judged:receiver:NAK".into(), 30), ("c17_timing_judged:receiver:Inactivity".into(), 30), ("c17_handler_judged:Abandon".into(), 20), ("c17_handler_judged:Suspend".into(), 20), ("c17_handler_judged:Ignore".into(), 20), ("c17_handler_judged:Cancel".into(), 40)],
